@@ -628,3 +628,426 @@ Example C11_powi_asis_nearest_all_nonvacuous :
      Accepted 3 1 (powerRZ (fval 3 7 (-1)) (-5)) (aval 3 a) (is_exact a)).
 Proof. exact powi_asis_nearest_all_example. Qed.
 Print Assumptions C11_powi_asis_nearest_all_nonvacuous.
+
+(* ================================================================== round 5 ================== *)
+(** the three pieces named by C11_exp_nearest_1ulp_partial.  (i) every addition of the series loops meets C03's
+    contract (operands of any length, same sign): the Maclaurin loop and the iacoth loop of the as-is model are
+    traces of the rounded loops of the analysis, without any hypothesis about the additions.  (ii) the error of
+    ln_base (iacoth series, ln2 / ln10 recombination) for the bases 2, 10 and the powers of two.  (iii) what
+    remains is numeric and explicit: C11_exp_asis_nearest_1ulp_partial is a theorem about ElemAsis.exp_internal
+    itself (scaled branch of Context::exp, nearest modes) whose side conditions are inequalities between the
+    inputs, the fuel (bound of the number of series terms) and the regenerated precisions, plus the exclusion of
+    the over-long operand class of finding F07 *)
+From Dashu Require Import Float.AddModelProof Float.ElemAddInst Float.ElemAtanhErr Float.ElemLnBaseInst Float.ElemExpCompose.
+
+Theorem C11_add_contract_is_one_rounding :
+  forall B : Z,
+    2 <= B ->
+    forall (p : Z) (m : mode) (S e0 : Z) (a : approx),
+    1 <= p ->
+    is_half_mode m = true ->
+    S <> 0 ->
+    rounded_sum B p m S e0 a -> exists th : R, aval B a = (fval B S e0 * th)%R /\ (Rabs (th - 1) <= uP B p)%R.
+Proof. exact @rounded_sum_rel. Qed.
+Print Assumptions C11_add_contract_is_one_rounding.
+
+Theorem C11_fb_add_same_sign_any_length :
+  forall B : Z,
+    2 <= B ->
+    forall (m : mode) (x y : fbig),
+    is_half_mode m = true ->
+    1 <= ctx_max (fprec x) (fprec y) ->
+    0 < fsig x * fsig y ->
+    exists th : R,
+      fbv B (fb_add_vv B m x y Positive) = ((fbv B x + fbv B y) * th)%R /\
+      (Rabs (th - 1) <= uP B (ctx_max (fprec x) (fprec y)))%R.
+Proof. exact @fb_add_vv_rel. Qed.
+Print Assumptions C11_fb_add_same_sign_any_length.
+
+Theorem C11_fb_add_ref_same_sign_any_length :
+  forall B : Z,
+    2 <= B ->
+    forall (m : mode) (x y : fbig),
+    is_half_mode m = true ->
+    1 <= ctx_max (fprec x) (fprec y) ->
+    0 < fsig x ->
+    0 <= fsig y ->
+    exists th : R,
+      fbv B (fb_add_vr B m x y Positive) = ((fbv B x + fbv B y) * th)%R /\
+      (Rabs (th - 1) <= uP B (ctx_max (fprec x) (fprec y)))%R.
+Proof. exact @fb_add_vr_rel. Qed.
+Print Assumptions C11_fb_add_ref_same_sign_any_length.
+
+Theorem C11_exp_series_loop_is_trace :
+  forall B : Z,
+    2 <= B ->
+    forall (F : Type) (O : f32ops F) (W : Z) (m : mode),
+    is_half_mode m = true ->
+    forall P : Z,
+    1 <= P ->
+    forall r : fbig,
+    P <= fprec r ->
+    0 <= fsig r ->
+    forall (fuel : nat) (sum pow : fbig) (k : nat) (res : fbig),
+    P <= fprec pow ->
+    P <= fprec sum ->
+    ExpTrace (uP B P) (fbv B r) k (fbv B pow) (fbv B sum) ->
+    exp_series_loop B O W fuel m r sum pow (Z.of_nat (fact k)) (Z.of_nat (S k)) = Ok res ->
+    exists (K : nat) (pw th1 th2 : R),
+      (k <= K)%nat /\
+      (K < k + fuel)%nat /\
+      ExpTrace (uP B P) (fbv B r) K pw (fbv B res) /\
+      (Rabs (th1 - 1) <= uP B P)%R /\
+      (Rabs (th2 - 1) <= uP B P)%R /\
+      (Rabs (next_increase (fbv B r) pw K th1 th2) <= bpw B (sub_ulp_exp B O W res))%R /\
+      P <= fprec res /\ (0 < fbv B res)%R.
+Proof. exact @exp_series_loop_trace. Qed.
+Print Assumptions C11_exp_series_loop_is_trace.
+
+Theorem C11_exp_series_asis_error :
+  forall B : Z,
+    2 <= B ->
+    forall (F : Type) (O0 : f32ops F) (W : Z) (m : mode),
+    is_half_mode m = true ->
+    forall P : Z,
+    1 <= P ->
+    forall r : fbig,
+    P <= fprec r ->
+    0 <= fsig r ->
+    forall (fuel : nat) (res : fbig),
+    (fbv B r <= / 2)%R ->
+    exp_series_loop B O0 W fuel m r (fb_add_vr B m ONE r Positive) r 1 2 = Ok res ->
+    P <= fprec res /\
+    (0 < fbv B res)%R /\
+    (exists K : nat,
+       (1 <= K)%nat /\
+       (K <= fuel)%nat /\
+       ((INR (S K) * uP B P < 1)%R ->
+        (Rabs (fbv B res - exp (fbv B r)) * (1 - INR (S K) * uP B P) <=
+         exp (fbv B r) * (INR (S K) * uP B P) + 2 * bpw B (sub_ulp_exp B O0 W res))%R)).
+Proof. exact @exp_series_asis_error. Qed.
+Print Assumptions C11_exp_series_asis_error.
+
+Theorem C11_atanh_series_tail :
+  forall (z : R) (K : nat), (0 <= z < 1)%R -> (An z K <= atanhR z <= An z K + aterm z (S K) / (1 - z * z))%R.
+Proof. exact @atanh_tail. Qed.
+Print Assumptions C11_atanh_series_tail.
+
+Theorem C11_ln2_ln10_formulas :
+  ln 2 = (4 * atanhR (/ 6) + 2 * atanhR (/ 99))%R /\ ln 10 = (3 * ln 2 + 2 * atanhR (/ 9))%R.
+Proof. exact @log_formulas. Qed.
+Print Assumptions C11_ln2_ln10_formulas.
+
+Theorem C11_atanh_series_error :
+  forall u : R,
+    (0 <= u)%R ->
+    (u <= / 2)%R ->
+    forall zc z2c z : R,
+    (0 <= z)%R ->
+    forall c0 c2 : nat,
+    RA u c0 z zc ->
+    RA u c2 (z * z) z2c ->
+    forall (K : nat) (pw sm th1 thk th2 thr : R),
+    (z <= / 3)%R ->
+    AtTrace u zc z2c K pw sm ->
+    (Rabs (th1 - 1) <= u)%R ->
+    (Rabs (thk - 1) <= u)%R ->
+    (Rabs (th2 - 1) <= u)%R ->
+    (Rabs (at_increase z2c pw K th1 thk th2) <= thr)%R ->
+    let c := (c0 + S K * S c2 + 3)%nat in
+    (INR c * u < 1)%R -> (Rabs (sm - atanhR z) * (1 - INR c * u) <= atanhR z * (INR c * u) + 2 * thr)%R.
+Proof. exact @at_series_error. Qed.
+Print Assumptions C11_atanh_series_error.
+
+Theorem C11_iacoth_loop_is_trace :
+  forall B : Z,
+    2 <= B ->
+    forall (F : Type) (O0 : f32ops F) (W : Z) (m : mode),
+    is_half_mode m = true ->
+    forall P : Z,
+    1 <= P ->
+    forall inv2 : fbig,
+    (0 < fbv B inv2)%R ->
+    forall (zc : R) (fuel : nat) (sum pow : fbig) (j : nat) (res : fbig),
+    P <= fprec pow ->
+    P <= fprec sum ->
+    (0 < fbv B pow)%R ->
+    (0 < fbv B sum)%R ->
+    AtTrace (uP B P) zc (fbv B inv2) j (fbv B pow) (fbv B sum) ->
+    iacoth_loop B O0 W fuel P m inv2 sum pow (Z.of_nat (S (2 * S j))) = Ok res ->
+    exists (K : nat) (pw th1 thk th2 : R),
+      (j <= K)%nat /\
+      (K < j + fuel)%nat /\
+      AtTrace (uP B P) zc (fbv B inv2) K pw (fbv B res) /\
+      (Rabs (th1 - 1) <= uP B P)%R /\
+      (Rabs (thk - 1) <= uP B P)%R /\
+      (Rabs (th2 - 1) <= uP B P)%R /\
+      (Rabs (at_increase (fbv B inv2) pw K th1 thk th2) <= bpw B (sub_ulp_exp B O0 W res))%R /\ (0 < fbv B res)%R.
+Proof. exact @iacoth_loop_trace. Qed.
+Print Assumptions C11_iacoth_loop_is_trace.
+
+Theorem C11_iacoth_asis_error :
+  forall B : Z,
+    2 <= B ->
+    forall (F : Type) (O0 : f32ops F) (W : Z),
+    (forall x : F, 0 <= f_to_usize O0 x) ->
+    forall m : mode,
+    is_half_mode m = true ->
+    forall (fuel : nat) (p n : Z) (res : fbig),
+    1 <= p ->
+    3 <= n ->
+    iacoth B O0 W fuel p m n = Ok res ->
+    fprec res = iacoth_wp B O0 p /\
+    (0 < fbv B res)%R /\
+    (exists K : nat,
+       (K < fuel)%nat /\
+       (let u := uP B (iacoth_wp B O0 p) in
+        let c := (10 * K + 16)%nat in
+        (INR c * u < 1)%R ->
+        (Rabs (fbv B res - atanhR (/ IZR n)) * (1 - INR c * u) <=
+         atanhR (/ IZR n) * (INR c * u) + 2 * bpw B (sub_ulp_exp B O0 W res))%R)).
+Proof. exact @iacoth_asis_error. Qed.
+Print Assumptions C11_iacoth_asis_error.
+
+Theorem C11_iacoth_asis_relative_error :
+  forall B : Z,
+    2 <= B ->
+    forall (F : Type) (O0 : f32ops F) (W : Z),
+    (forall x : F, 0 <= f_to_usize O0 x) ->
+    forall m : mode,
+    is_half_mode m = true ->
+    (forall s : Z, digits_lb O0 W B s <= dlen B s) ->
+    forall (fuel : nat) (p n : Z) (res : fbig),
+    1 <= p ->
+    3 <= n ->
+    iacoth B O0 W fuel p m n = Ok res ->
+    fprec res = iacoth_wp B O0 p /\
+    (0 < fbv B res)%R /\
+    (exists K : nat,
+       (K < fuel)%nat /\
+       (let u := uP B (iacoth_wp B O0 p) in
+        (INR (10 * K + 16) * u + 2 * u < 1)%R -> RD (iacoth_rel u K) (atanhR (/ IZR n)) (fbv B res))).
+Proof. exact @iacoth_asis_rel. Qed.
+Print Assumptions C11_iacoth_asis_relative_error.
+
+Theorem C11_ln2_asis_relative_error :
+  forall B : Z,
+    2 <= B ->
+    forall (F : Type) (O0 : f32ops F) (W : Z),
+    (forall x : F, 0 <= f_to_usize O0 x) ->
+    forall m : mode,
+    is_half_mode m = true ->
+    (forall s : Z, digits_lb O0 W B s <= dlen B s) ->
+    forall (fuel : nat) (p : Z) (res : fbig),
+    1 <= p ->
+    ln2 B O0 W fuel p m = Ok res ->
+    iacoth_wp B O0 p <= fprec res /\
+    (exists Ka Kb : nat,
+       (Ka < fuel)%nat /\
+       (Kb < fuel)%nat /\
+       (let u := uP B (iacoth_wp B O0 p) in
+        (INR (10 * Ka + 16) * u + 2 * u < 1)%R ->
+        (INR (10 * Kb + 16) * u + 2 * u < 1)%R ->
+        (rstep u (Rmax (iacoth_rel u Ka) (iacoth_rel u Kb)) < 1)%R -> RD (ln2_rel u Ka Kb) (ln 2) (fbv B res))).
+Proof. exact @ln2_asis_rel. Qed.
+Print Assumptions C11_ln2_asis_relative_error.
+
+Theorem C11_ln_base_error_base2 :
+  forall B : Z,
+    2 <= B ->
+    forall (F : Type) (O0 : f32ops F) (W : Z),
+    (forall x : F, 0 <= f_to_usize O0 x) ->
+    forall m : mode,
+    is_half_mode m = true ->
+    (forall s : Z, digits_lb O0 W B s <= dlen B s) ->
+    forall (fuel : nat) (p : Z) (res : fbig),
+    B = 2 ->
+    1 <= p ->
+    ln_base B O0 W fuel p m = Ok res ->
+    let u := uP B (iacoth_wp B O0 p) in
+    (INR (10 * fuel + 16) * u + 2 * u < 1)%R ->
+    (rstep u (iacoth_rel u fuel) < 1)%R ->
+    RD (rstep u (rstep u (iacoth_rel u fuel))) (ln (IZR B)) (fbv B res) /\ iacoth_wp B O0 p <= fprec res.
+Proof. exact @ln_base2_asis_rel_fuel. Qed.
+Print Assumptions C11_ln_base_error_base2.
+
+Theorem C11_ln_base_error_base10 :
+  forall B : Z,
+    2 <= B ->
+    forall (F : Type) (O0 : f32ops F) (W : Z),
+    (forall x : F, 0 <= f_to_usize O0 x) ->
+    forall m : mode,
+    is_half_mode m = true ->
+    (forall s : Z, digits_lb O0 W B s <= dlen B s) ->
+    forall (fuel : nat) (p : Z) (res : fbig),
+    B = 10 ->
+    1 <= p ->
+    ln_base B O0 W fuel p m = Ok res ->
+    iacoth_wp B O0 p <= fprec res /\
+    (exists Ka Kb Kc : nat,
+       (Ka < fuel)%nat /\
+       (Kb < fuel)%nat /\
+       (Kc < fuel)%nat /\
+       (let u := uP B (iacoth_wp B O0 p) in
+        (INR (10 * Ka + 16) * u + 2 * u < 1)%R ->
+        (INR (10 * Kb + 16) * u + 2 * u < 1)%R ->
+        (INR (10 * Kc + 16) * u + 2 * u < 1)%R ->
+        (rstep u (Rmax (iacoth_rel u Ka) (iacoth_rel u Kb)) < 1)%R ->
+        (rstep u (Rmax (ln2_rel u Ka Kb) (iacoth_rel u Kc)) < 1)%R ->
+        RD (ln10_rel u Ka Kb Kc) (ln (IZR B)) (fbv B res))).
+Proof. exact @ln_base10_asis_rel. Qed.
+Print Assumptions C11_ln_base_error_base10.
+
+Theorem C11_ln_base_error_powers_of_two :
+  forall B : Z,
+    2 <= B ->
+    forall (F : Type) (O0 : f32ops F) (W : Z),
+    (forall x : F, 0 <= f_to_usize O0 x) ->
+    forall m : mode,
+    is_half_mode m = true ->
+    (forall s : Z, digits_lb O0 W B s <= dlen B s) ->
+    forall (fuel : nat) (p : Z) (res : fbig),
+    B <> 2 ->
+    is_pow2 B = true ->
+    1 <= p ->
+    ln_base B O0 W fuel p m = Ok res ->
+    iacoth_wp B O0 p <= fprec res /\
+    (exists Ka Kb : nat,
+       (Ka < fuel)%nat /\
+       (Kb < fuel)%nat /\
+       (let u := uP B (iacoth_wp B O0 p) in
+        (INR (10 * Ka + 16) * u + 2 * u < 1)%R ->
+        (INR (10 * Kb + 16) * u + 2 * u < 1)%R ->
+        (rstep u (Rmax (iacoth_rel u Ka) (iacoth_rel u Kb)) < 1)%R ->
+        RD (rstep u (ln2_rel u Ka Kb)) (ln (IZR B)) (fbv B res))).
+Proof. exact @ln_base_pow2_asis_rel. Qed.
+Print Assumptions C11_ln_base_error_powers_of_two.
+
+Theorem C11_exp_internal_scaled_structure :
+  forall (B : Z) (F : Type) (O : f32ops F) (W : Z) (m : mode) (fuel : nat) (p s e : Z),
+    p <> 0 ->
+    s <> 0 ->
+    exp_internal B O W fuel p m s e false =
+    rbind (exp_scaled_series B O W m fuel p s e)
+      (fun qs : Z * fbig =>
+       rbind (powi_asis B p m (fsig (snd qs)) (fexp (snd qs)) (B ^ exp_n_gen O p))
+         (fun pw : approx => Ok (never_exact (approx_map pw (fun s' e' : Z => shl_val s' e' (fst qs)))))).
+Proof. exact @exp_internal_scaled. Qed.
+Print Assumptions C11_exp_internal_scaled_structure.
+
+Theorem C11_exp_asis_nearest_1ulp_partial :
+  forall B : Z,
+    2 <= B ->
+    forall (F : Type) (O : f32ops F) (W : Z) (m : mode),
+    (forall x : F, 0 <= f_to_usize O x) ->
+    (forall s : Z, digits_lb O W B s <= dlen B s) ->
+    is_half_mode m = true ->
+    forall (fuel : nat) (p s e : Z) (a : approx) (eL d : R),
+    1 <= p ->
+    s <> 0 ->
+    exp_internal B O W fuel p m s e false = Ok a ->
+    let x := fval B s e in
+    let wp := exp_scaled_wp B O W p s e in
+    let n := exp_n_gen O p in
+    let N := B ^ n in
+    let wp' := powi_work_precision p N in
+    let u := uP B wp in
+    let u' := uP B wp' in
+    let lnB := ln (IZR B) in
+    (forall logb : fbig, ln_base B O W fuel wp m = Ok logb -> RD eL lnB (fbv B logb) /\ wp <= fprec logb) ->
+    (0 <= eL < 1)%R ->
+    (forall (q : Z) (sum : fbig),
+     exp_scaled_series B O W m fuel p s e = Ok (q, sum) -> dlen B (fsig sum) <= 2 * wp') ->
+    let y := (INR (S fuel) * u)%R in
+    let es := ((y + 2 * u) / (1 - y - 2 * u))%R in
+    let dp := (IZR (N - 1) * u' / (1 - IZR (N - 1) * u'))%R in
+    let qmax := (Rabs x * (1 + u) / (lnB * (1 - eL)) + 1)%R in
+    let a_ := (u * Rabs x + qmax * (eL * lnB) + u * (lnB * (1 + eL)))%R in
+    (y + 2 * u < 1)%R ->
+    (IZR (N - 1) * u' < 1)%R ->
+    (2 * (a_ + IZR N * es) + dp <= d)%R ->
+    (d <= 1)%R ->
+    (2 * d * IZR (B ^ p) <= 1)%R ->
+    (lnB * (1 + eL) * (1 + u) * 2 <= IZR N)%R ->
+    is_exact a = false /\
+    (exists E : Z, (bpw B E <= Rabs (exp x))%R /\ (Rabs (aval B a - exp x) < bpw B (E - p + 1))%R).
+Proof. exact @exp_scaled_asis_nearest_partial. Qed.
+Print Assumptions C11_exp_asis_nearest_1ulp_partial.
+
+Theorem C11_exp_asis_nearest_1ulp_base2_partial :
+  forall B : Z,
+    2 <= B ->
+    forall (F : Type) (O0 : f32ops F) (W : Z) (m : mode),
+    (forall x : F, 0 <= f_to_usize O0 x) ->
+    (forall s : Z, digits_lb O0 W B s <= dlen B s) ->
+    is_half_mode m = true ->
+    forall (fuel : nat) (p s e : Z) (a : approx) (d : R),
+    B = 2 ->
+    1 <= p ->
+    s <> 0 ->
+    exp_internal B O0 W fuel p m s e false = Ok a ->
+    let x := fval B s e in
+    let wp := exp_scaled_wp B O0 W p s e in
+    let n := exp_n_gen O0 p in
+    let N := B ^ n in
+    let wp' := powi_work_precision p N in
+    let u := uP B wp in
+    let u' := uP B wp' in
+    let lnB := ln (IZR B) in
+    let uL := uP B (iacoth_wp B O0 wp) in
+    let eL := rstep uL (rstep uL (iacoth_rel uL fuel)) in
+    (INR (10 * fuel + 16) * uL + 2 * uL < 1)%R ->
+    (rstep uL (iacoth_rel uL fuel) < 1)%R ->
+    (eL < 1)%R ->
+    (forall (q : Z) (sum : fbig),
+     exp_scaled_series B O0 W m fuel p s e = Ok (q, sum) -> dlen B (fsig sum) <= 2 * wp') ->
+    let y := (INR (S fuel) * u)%R in
+    let es := ((y + 2 * u) / (1 - y - 2 * u))%R in
+    let dp := (IZR (N - 1) * u' / (1 - IZR (N - 1) * u'))%R in
+    let qmax := (Rabs x * (1 + u) / (lnB * (1 - eL)) + 1)%R in
+    let a_ := (u * Rabs x + qmax * (eL * lnB) + u * (lnB * (1 + eL)))%R in
+    (y + 2 * u < 1)%R ->
+    (IZR (N - 1) * u' < 1)%R ->
+    (2 * (a_ + IZR N * es) + dp <= d)%R ->
+    (d <= 1)%R ->
+    (2 * d * IZR (B ^ p) <= 1)%R ->
+    (lnB * (1 + eL) * (1 + u) * 2 <= IZR N)%R ->
+    is_exact a = false /\
+    (exists E : Z, (bpw B E <= Rabs (exp x))%R /\ (Rabs (aval B a - exp x) < bpw B (E - p + 1))%R).
+Proof. exact @exp_scaled_asis_nearest_base2_partial. Qed.
+Print Assumptions C11_exp_asis_nearest_1ulp_base2_partial.
+
+Example C11_add_inst_nonvacuous :
+  (exists th : R,
+       fbv 10
+         (fb_add_vv 10 MHalfEven {| fsig := 12345; fexp := -4; fprec := 3 |}
+            {| fsig := 678; fexp := 0; fprec := 3 |} Positive) =
+       ((fbv 10 {| fsig := 12345; fexp := -4; fprec := 3 |} + fbv 10 {| fsig := 678; fexp := 0; fprec := 3 |}) *
+        th)%R /\ (Rabs (th - 1) <= uP 10 3)%R) /\
+    exp_series_loop 10 no_f32 64 20 MHalfEven {| fsig := 5; fexp := -2; fprec := 6 |}
+      (fb_add_vr 10 MHalfEven ONE {| fsig := 5; fexp := -2; fprec := 6 |} Positive)
+      {| fsig := 5; fexp := -2; fprec := 6 |} 1 2 = Ok {| fsig := 105127; fexp := -5; fprec := 6 |}.
+Proof. exact @add_inst_example. Qed.
+Print Assumptions C11_add_inst_nonvacuous.
+
+Example C11_atanh_series_error_nonvacuous :
+  AtTrace (/ 4) (/ 6) (/ 36) 0 (/ 6) (/ 6) /\ (0 <= / 3 <= / 3)%R /\ RA (/ 4) 0 (/ 6) (/ 6).
+Proof. exact @at_series_error_example. Qed.
+Print Assumptions C11_atanh_series_error_nonvacuous.
+
+Example C11_ln_base_nonvacuous :
+  exists res : fbig,
+      ln_base 2 no_f32 64 40 4 MHalfEven = Ok res /\
+      0 < fsig res /\ ln_base 10 no_f32 64 40 4 MHalfEven <> OutOfFuel.
+Proof. exact @ln_base_example. Qed.
+Print Assumptions C11_ln_base_nonvacuous.
+
+Example C11_exp_asis_nearest_1ulp_nonvacuous :
+  exp_internal 2 toy_f32 64 80 64 MHalfEven 1 0 false =
+    Ok (AInexact 12535862302449814171 (-62) RoundTables.AddOne) /\
+    (exists E : Z,
+       (bpw 2 E <= Rabs (exp (fval 2 1 0)))%R /\
+       (Rabs (aval 2 (AInexact 12535862302449814171 (-62) RoundTables.AddOne) - exp (fval 2 1 0)) <
+        bpw 2 (E - 64 + 1))%R).
+Proof. exact @exp_scaled_asis_nearest_example. Qed.
+Print Assumptions C11_exp_asis_nearest_1ulp_nonvacuous.
